@@ -8,6 +8,7 @@ ID = 'C05'
 PROPS_V = 'C05/Props.v'
 LEVEL = 'proof'
 TRUSTED = [
+    'translate/c05.py: Python ast -> statements of C05/Imp.v for class groups, chunks.friendsoffriends and the spheregroup tail (Generated/Groups.v); C05/GenRef.v is the hand-maintained reference they must equal',
     'hand-written models in C05/Model.v (renumbering / list tail of spheregroup, friendsoffriends tail, mapGroups merge, per-cell groups) -- '
     'tied to the code by exact reproduction of the returned arrays from recorded intermediate values',
     'harness/impl/c05_impl.py: wraps chunks.friendsoffriends / chunkfriendsoffriends from the harness process to record intermediate values',
@@ -25,6 +26,19 @@ ASSUMPTIONS = [
 ]
 
 D2R = math.pi / 180.0
+
+
+def translate(ctx):
+    """regenerate coq/Generated/Groups.v (statements of class groups, chunks.friendsoffriends, spheregroup tail)"""
+    import os
+    from translate import c05 as T
+    text, info = T.generate(C.REPO)
+    if text is not None:
+        info['changed'] = C.write_if_changed(os.path.join(C.COQ, 'Generated', 'Groups.v'), text)
+    else:
+        info['restored_committed_file'] = C.restore_generated('coq/Generated/Groups.v')
+        info['note'] = 'source shape not recognised; the committed Generated/Groups.v is restored and the correspondence run alone ties the models to the code'
+    return {'Groups': info}
 
 
 def chain(rng, start, ll, m, bearing, wobble=8.0):
